@@ -28,7 +28,7 @@ ASSUMPTIONS = [
 REQUIRED_CLASSES = ["seq-len-79-81", "seq-len-159-161", "negative-int", "one-char-field", "append", "gzip", "stream", "empty-piece-between",
                     "empty-piece-first", "int-near-power-of-ten", "empty-table", "pieces-from-reread", "pieces-from-reread-thinned", "concat-of-reread-pieces",
                     "pieces-sliced-from-the-table-already-written", "sequence-column-in-dna-encoding", "table-written-is-a-row-selection"]
-BOUNDS = {"quick": "150 (table, plan) pairs for each of 15 table types, up to 8 rows", "thorough": "3000 per type, up to 40 rows"}
+BOUNDS = {"quick": "150 (table, plan) pairs for each of 17 table types, up to 8 rows", "thorough": "3000 per type, up to 40 rows"}
 BUDGET_S = {"quick": 200, "thorough": 1500}
 
 # type tag -> (dataclass path, buffer path, suffix, [(field, kind), ...])
@@ -52,12 +52,17 @@ TYPES = {
               [("name", "id"), ("sequence", "seq1")]),
     "fasta2": ("bionumpy.datatypes.SequenceEntry", "bionumpy.io.one_line_buffer.TwoLineFastaBuffer", ".fa",
                [("name", "id"), ("sequence", "seq")]),
+    "gfa": ("bionumpy.datatypes.SequenceEntry", "bionumpy.io.delimited_buffers.GfaSequenceBuffer", ".gfa",
+            [("name", "id"), ("sequence", "seq1")]),
     "fastq": ("bionumpy.datatypes.SequenceEntryWithQuality", "bionumpy.io.fastq_buffer.FastQBuffer", ".fq",
               [("name", "id"), ("sequence", "seq1"), ("quality", "qual")]),
     "sam": ("bionumpy.datatypes.SAMEntry", "bionumpy.io.buffers.sam.SAMBuffer", ".sam",
             [("name", "id"), ("flag", "uint"), ("chromosome", "id"), ("position", "uint"), ("mapq", "uint"), ("cigar", "str"),
              ("next_chromosome", "str"), ("next_position", "uint"), ("length", "int"), ("sequence", "str"), ("quality", "str"), ("extra", "tags")]),
     "gtf": ("bionumpy.datatypes.GTFEntry", "bionumpy.io.delimited_buffers.GTFBuffer", ".gtf",
+            [("chromosome", "id"), ("source", "str"), ("feature_type", "id"), ("start", "int"), ("stop", "int"), ("score", "str"),
+             ("strand", "strand"), ("phase", "str"), ("atributes", "str")]),
+    "gff": ("bionumpy.datatypes.GFFEntry", "bionumpy.io.delimited_buffers.GFFBuffer", ".gff3",
             [("chromosome", "id"), ("source", "str"), ("feature_type", "id"), ("start", "int"), ("stop", "int"), ("score", "str"),
              ("strand", "strand"), ("phase", "str"), ("atributes", "str")]),
     "pairs": ("bionumpy.datatypes.PairsEntry", "bionumpy.io.pairs.PairsBuffer", ".pairs",
@@ -84,7 +89,7 @@ def genotype_code(g):
     return v - 256 if v > 127 else v
 
 # re-read sources are used for the formats whose lazily read selections can be written back (C04 covers that write path in depth)
-NO_REREAD = ("bed12", "chromsizes", "gtf", "pairs", "fasta", "vcfentry", "vcfmatrix")
+NO_REREAD = ("bed12", "chromsizes", "gtf", "gff", "gfa", "pairs", "fasta", "vcfentry", "vcfmatrix")
 
 
 def _load(path):
@@ -149,6 +154,8 @@ def canonical_body(tname, rows):
             out.append(">" + r[0] + "\n" + "".join(seq[i:i + 80] + "\n" for i in range(0, len(seq), 80)))
         elif tname == "fasta2":
             out.append(">" + r[0] + "\n" + r[1] + "\n")
+        elif tname == "gfa":
+            out.append("S\t" + r[0] + "\t" + r[1] + "\n")
         elif tname == "fastq":
             out.append("@" + r[0] + "\n" + r[1] + "\n+\n" + r[2] + "\n")
         elif tname == "sam":
